@@ -135,7 +135,9 @@ def run(tier):
     sources = [('tz2025b', compiler.lines_2025b()), ('shipped-zonedbx', compiler.lines_shipped('zonedbx'))]
     ngen = 3 if tier == 'quick' else 12
     for k in range(ngen):
-        sources.append(('gen%02d' % k, compiler.gen_source(rnd, 40 if tier == 'quick' else 120)))
+        # (the last generated source also has eras that end on the day of one of their rule transitions at a time given in
+        #  another time frame, between the wall and the universal reading of the transition)
+        sources.append(('gen%02d' % k, compiler.gen_source(rnd, 40 if tier == 'quick' else 120, near_until=(k == ngen - 1))))
     sources.append(('edge', compiler.edge_source()))
     base = compiler.lines_shipped('zonedbx')
     for k in range(1 if tier == 'quick' else 4):
